@@ -140,7 +140,7 @@ Lemma replace_seq_nonnil table s : forallb (fun kv => negb (isnil (snd kv))) tab
 Proof.
   unfold replace_seq. revert s. induction table as [|kv table IH]; intros s H Hs; [exact Hs|].
   cbn [forallb] in H. apply andb_true_iff in H. destruct H as [H1 H2]. cbn [fold_left]. apply IH; [exact H2|].
-  apply replace_all_nonnil; [exact Hs|]. intro E. rewrite E in H1. discriminate H1.
+  apply replace_all_nonnil; [exact Hs|]. destruct kv as [k v]. cbn [snd] in *. destruct v; [discriminate H1|discriminate].
 Qed.
 Lemma sax_unescape_nonnil ents s : entities_nonempty ents = true -> s <> [] -> sax_unescape ents s <> [].
 Proof.
